@@ -100,6 +100,36 @@ def curve_probes(rng, lvl):
     return vals
 
 
+def order_valid_sig(drivers, lvl, variant, pk, trl, bt=0):
+    """a secret-free signature whose kernel points pass every order test for the given two_resp_length (so that the
+    (2,2)-chain and its strategy row are reached): E_aux := pk curve with the pk hints; dim2: matrix columns
+    P' = 3e1+e2, Q' = 2^trl (e1+2e2) (no zero scalar: the x-only biscalar ladder mishandles them) and the correct public hints of E_chall (driver op `hints`); heuristic: x = b0 = 1,
+    Q' = 2^a e2.  Returns tokens or None."""
+    c = vc.CONST[lvl]
+    pd = vc.pk_dict(pk)
+    if variant == "heur":
+        a = c["hc"] + trl
+        n = c["f"] - a
+        if a < 1 or n < 1:
+            return None
+        d = dict(Are=pd["Are"], Aim=pd["Aim"], Cre=1, Cim=0, trl=trl, ha0=pd["h0"], ha1=pd["h1"], x=1, hint_b=0, b0=1, d0=0, b1=0,
+                 d1=(2 ** (a - n) if a > n else 0), c0=0, e0=(1 if a <= n else 0))
+        return vc.sig_tokens(variant, d)
+    if trl < 0 or trl > c["resp"]:
+        return None
+    d = dict(Are=pd["Are"], Aim=pd["Aim"], Cre=1, Cim=0, bt=bt, trl=0, m00=3, m01=2 ** trl, m10=1, m11=2 ** (trl + 1), chall=12345, chall_b=0,
+             ha0=pd["h0"], ha1=pd["h1"], hc0=0, hc1=0)
+    st, o, err = vc.run_lines(drivers[(lvl, variant)], [vc.verify_line(variant, pk, vc.sig_tokens(variant, d), "00")], TIMEOUT_PROBE)
+    a = vc.parse_kv(o[0]).get("Achall", "-") if (st == "ok" and o) else "-"
+    if a == "-":
+        return None
+    st, o, err = vc.run_lines(drivers[(lvl, variant)], ["hints %s %s %d" % (a.split(",")[0], a.split(",")[1], c["resp"] + 2)], TIMEOUT_PROBE)
+    if st != "ok":
+        return None
+    d.update(trl=trl, hc0=int(o[0].split()[1]), hc1=int(o[0].split()[2]))
+    return vc.sig_tokens(variant, d)
+
+
 def search(ctx, drivers, honest):
     """the property's own failing-input search when a proof obligation broke: run the witness list and the
     boundary grid of the honest ranges on the real (sanitizer) code"""
@@ -107,8 +137,13 @@ def search(ctx, drivers, honest):
         h = honest.get((lvl, variant))
         if not h:
             continue
-        for label, kw in witness_list(lvl, variant) + boundary_grid(lvl, variant):
-            sig = mutate(variant, h["sig"], **kw)
+        cands = [(label, mutate(variant, h["sig"], **kw)) for label, kw in witness_list(lvl, variant) + boundary_grid(lvl, variant)]
+        mt = vc.max_trl(lvl, variant)
+        for t in (mt + 1, mt + 2, -1):
+            sv = order_valid_sig(drivers, lvl, variant, h["pk"], t)
+            if sv:
+                cands.insert(0, ("order-valid:trl=max%+d" % (t - mt), sv))
+        for label, sig in cands:
             st, out, err = vc.run_lines(drivers[(lvl, variant)], [vc.verify_line(variant, h["pk"], sig, h["msg"])], TIMEOUT_PROBE)
             if st != "ok":
                 return ("C03:%s:lvl%d:%s" % (variant, lvl, label), "verification of an out-of-range signature value is not memory-safe / total: %s" % st,
@@ -157,6 +192,12 @@ def run(ctx):
         base += random_probes(rr, lvl, variant, n_int, n_big)
         for label, kw in base:
             probes.append((lvl, variant, label, h["pk"], mutate(variant, h["sig"], **kw), h["msg"]))
+        # kernels that pass every order test, so that the chain (and its strategy row) is reached
+        mt = vc.max_trl(lvl, variant)
+        for t in ((0, mt - 1, mt, mt + 1) if (lvl == 1 or not quick) else (mt, mt + 1)):
+            sv = order_valid_sig(drivers, lvl, variant, h["pk"], t)
+            if sv:
+                probes.append((lvl, variant, "order-valid:trl=%s" % ("max%+d" % (t - mt) if t else "0"), h["pk"], sv, "00"))
         # curves: E_aux and pk curve
         for nm, (are, aim, cre, cim) in curve_probes(rr, lvl) if (lvl == 1 or not quick) else curve_probes(rr, lvl)[:5]:
             d = vc.sig_dict(variant, h["sig"]); d.update(Are=are, Aim=aim, Cre=cre, Cim=cim)
